@@ -229,6 +229,8 @@ func Spec() *explore.Spec {
 			},
 			Doc: "message types of 1-3 fields from a palette of ~200 field shapes (scalars, tagged encodings, pointers, repeated, maps, nested/inlined messages in every wrapper, Message/custom leaves) x field-number patterns x values (all-typical / all-zero base with up to 2 deviating choices from boundary domains)"},
 	}
+	spec.Families = append(spec.Families, &explore.Family{Name: "toplevel-messages", ShardDepth: 2, Body: toplevelMessages,
+		Doc: "values that implement Message / the custom interface themselves (by value and by pointer; plain, RawMessage, and types that are a single pointer, alone and as struct fields) x 5 payloads: Size and Marshal give the bytes the value's own methods produce"})
 	spec.Families = append(spec.Families, &explore.Family{Name: "length-ladder", ShardDepth: 2, Body: ladder,
 		Doc: "20 positions of a length-delimited payload (string, bytes, nested, pointer, repeated, map key/value, Message/custom leaf, element counts) x every payload length 0..300 and 16370..16400 (thorough: ..2100 and around 2^21): every length-prefix width boundary at every nesting position"})
 	spec.Families = append(spec.Families, &explore.Family{Name: "varint-widths", ShardDepth: 2, Body: varintWidths,
